@@ -499,6 +499,38 @@ def _r_map(root: Any, op: dict, a: Action, idx: Any) -> Action:
                 now = list(raw)
                 a.inserted = [x for x in now if not _ident_in(x, rawcur)]
             a._after = after2
+    elif name == 'popitem':
+        # dict semantics: last in, first out
+        a.shape = 'popitem:' + ('empty' if not items else 'nonempty')
+        if not items:
+            a.expect_exc = KeyError
+        else:
+            a.removed = [items[-1]]
+            a.ref['match'] = items[-1]
+        a._run = lambda: a.ref.__setitem__('returned', w.popitem())
+    elif name == 'update':
+        # mapping.update(other model's mapping of the same kind): for every key of the other, first-match assignment / append
+        ms = idx.get(op['cls'], []) if isinstance(idx, dict) else index_models(root).get(op['cls'], [])
+        others = [x for x in ms if x is not P]
+        if not others or is_raw:
+            raise NotApplicable('needs a second model; raw items of another model are attached')
+        other = getattr(others[op.get('sel', 0) % len(others)], p.name)
+        try:
+            pairs = [(x.key, x.value) for x in other]
+        except ArithmeticError:
+            raise NotApplicable('unevaluable value')
+        if any(isinstance(v, base.RawModel) for _, v in pairs):
+            raise NotApplicable('values that are nodes of the other model are attached')
+        a.shape = 'update:' + str(min(len(pairs), 2))
+        a.ref['update_pairs'] = pairs
+        a.structural = True
+        a._run = lambda: w.update(other)
+
+        def after3() -> None:
+            now = list(raw)
+            a.inserted = [x for x in now if not _ident_in(x, rawcur)]
+            a.changed = [x for x in items if x.key in {k for k, _ in pairs}]
+        a._after = after3
     else:
         raise NotApplicable(name)
     if op.get('misfit'):
@@ -1013,8 +1045,13 @@ def _gen_mapop(g: L.G, base_op: dict, m: Any, p: S.Prop, w: Any) -> dict:
     except Exception:  # noqa: BLE001
         pass
     key = g.pick(keys) if keys and g.p(0.6) else g.meta_key()[1][:-1]
-    name = g.pick(['set', 'set', 'del', 'pop', 'pop_default', 'setdefault'])
+    name = g.pick(['set', 'set', 'del', 'pop', 'pop_default', 'setdefault', 'popitem', 'update'])
     op = {'f': 'map', **base_op, 'op': name, 'key': key}
+    if name == 'update':
+        op['sel'] = g.n(0, 5)
+        return op
+    if name == 'popitem':
+        return op
     if p.kind == 'rawmeta':
         ind = sibling_indent(m, p)
         text = L.text_of([g.meta_item_line(['INDENT', ind])])
